@@ -546,7 +546,7 @@ def b5_b6(run: Run, prog, cy, cfuncs, shapes, handoffs, sites):
     n_acc = 0
     for h in handoffs:
         cf = cfuncs[h.cname]
-        it = CInterp(cf)
+        it = CInterp(cf, cfuncs)
         it.run(cf.body)
         shp = dict(shapes.get(h.cname, {}))
         for name, cnt in it.alloca.items():
